@@ -444,17 +444,20 @@ Proof.
                                sf_ts_w (wm_tx_ts x0) (N.to_nat L) < wm_ts_dec (wm_tx_ts x0) ^ 16) by discriminate.
   pose proof (sf_ts_commit_spec wm_level_count sid true L x0 H0 HL Hfuel Hpre) as K.
   cbv zeta in K. destruct K as (K1 & K2 & _). split; assumption.
-Time Qed.
+Qed.
 
-Lemma sf_ts_close_fold : forall sid ls x0, sf_tx_ok x0 -> Forall (fun L => 1 <= L <= 15) ls ->
-  sf_tx_ok (fold_left (fun x1 level => wm_ts_commit wm_level_count sid true level x1) ls x0) /\
-  sf_bext (wm_tx_base x0) (wm_tx_base (fold_left (fun x1 level => wm_ts_commit wm_level_count sid true level x1) ls x0)).
+(* generic: an invariant with a transitive extension relation through fold_left *)
+Lemma sf_fold_inv : forall (X A : Type) (ok : X -> Prop) (ext : X -> X -> Prop) (rng : A -> Prop) (step : X -> A -> X),
+  (forall x, ext x x) -> (forall a b c, ext a b -> ext b c -> ext a c) ->
+  (forall x a, ok x -> rng a -> ok (step x a) /\ ext x (step x a)) ->
+  forall ls x0, ok x0 -> Forall rng ls -> ok (fold_left step ls x0) /\ ext x0 (fold_left step ls x0).
 Proof.
-  intros sid. induction ls as [|L ls IH]; intros x0 H0 Hls; [split; [exact H0 | apply sf_bext_refl]|].
-  inversion Hls as [|? ? HL Hls']; subst. cbn [fold_left].
-  destruct (sf_ts_close_step sid L x0 H0 HL) as [K1 K2].
-  destruct (IH _ K1 Hls') as [J1 J2]. split; [exact J1 | eapply sf_bext_trans; eassumption].
-Time Qed.
+  intros X A ok ext rng step Hrefl Htrans Hstep.
+  induction ls as [|a ls IH]; intros x0 H0 Hls; [split; [exact H0 | apply Hrefl]|].
+  inversion Hls as [|? ? Ha Hls']; subst. cbn [fold_left].
+  destruct (Hstep x0 a H0 Ha) as [K1 K2].
+  destruct (IH _ K1 Hls') as [J1 J2]. split; [exact J1 | eapply Htrans; eassumption].
+Qed.
 
 Lemma sf_close_levels_range : Forall (fun L => 1 <= L <= 15) wm_close_levels.
 Proof. unfold wm_close_levels. repeat (constructor; [lia|]). constructor. Qed.
@@ -462,5 +465,12 @@ Proof. unfold wm_close_levels. repeat (constructor; [lia|]). constructor. Qed.
 Lemma sf_ts_close_spec : forall sid x, sf_tx_ok x ->
   sf_tx_ok (wm_ts_close sid x) /\ sf_bext (wm_tx_base x) (wm_tx_base (wm_ts_close sid x)).
 Proof.
-  intros sid x Hx. unfold wm_ts_close. apply sf_ts_close_fold; [exact Hx | exact sf_close_levels_range].
+  intros sid x Hx. unfold wm_ts_close.
+  apply (sf_fold_inv wm_tx N sf_tx_ok (fun a b => sf_bext (wm_tx_base a) (wm_tx_base b)) (fun L => 1 <= L <= 15)
+           (fun x1 level => wm_ts_commit wm_level_count sid true level x1)).
+  - intro a. apply sf_bext_refl.
+  - intros a b c. apply sf_bext_trans.
+  - intros x0 L H0 HL. exact (sf_ts_close_step sid L x0 H0 HL).
+  - exact Hx.
+  - exact sf_close_levels_range.
 Qed.
